@@ -1,15 +1,45 @@
 (* PropsC13.v — C13: Unpack changes only what the config mentions and nothing when it fails.
    Statements only; proofs are in ProofsReify.v.
 
-   PARTIAL: proved is the frame law of one struct level, for every struct type and every
-   configuration: an unexported or ignored field, and a (non-struct, non-inline) field whose
-   setting is absent or nil, holds after a successful Unpack exactly the value it held
-   before; and the number of fields is unchanged.  By construction of the model a failing
-   Unpack returns no value at all (the caller keeps the old one): that the implementation
-   does not write into the target before failing is checked on the implementation by the
-   correspondence run (CFault cases compare the struct before and after).  NOT proved: the
-   recursive statement through nested structs, pointers and collections. *)
-From Ucfg Require Import Base ParseInt Consts Field Tree PathOps Merge OTree F64 Conv Reify ProofsReify.
+   PARTIAL.  Proved:
+   - the recursive frame law for EVERY struct type built from primitive fields and struct fields
+     to any depth, every pre-filled value of that shape and every configuration: the result of a
+     successful Unpack satisfies frame_ok - the recursive condition the correspondence check
+     evaluates on what the implementation returned: at every depth an unexported or ignored
+     field and a field whose setting is absent or null keep the value they had
+     (c13_nested_frame);
+   - the frame law of one struct level for every struct type whatsoever (pointers, collections,
+     inline fields included) and every configuration (c13_frame_one_level_partial), and that the
+     number of fields is unchanged.
+   By construction of the model a failing Unpack returns no value at all (the caller keeps the
+   old one): that the implementation does not write into the target - nor through the storage
+   of its slices - before failing is checked on the implementation by the correspondence run
+   (the struct is compared before and after).  NOT proved: the recursive statement through
+   pointers and collections. *)
+From Ucfg Require Import Base ParseInt Consts Field Tree PathOps Merge OTree F64 Conv Reify ProofsReify
+     ProofsValidNested CorrC04 CorrC13 ProofsFrameNested.
+
+Theorem c13_nested_frame : forall f o fs vs cfg g,
+  Forall plain_field fs -> plain_gv (GStructV vs) = true ->
+  reify_struct f o (TStruct fs) (GStructV vs) cfg = Ok g ->
+  frame_ok o (TStruct fs) cfg (GStructV vs) g = true.
+Proof. exact nested_struct_frame. Qed.
+Print Assumptions c13_nested_frame.
+
+Theorem c13_nested_frame_example :
+  let o := {| r_p := {| p_sep := "."; p_maxIdx := 1024; p_numKeys := false; p_escape := false |}; r_h := 0%N;
+              r_vo := {| vo_dur := fun _ => None |}; r_ft := [] |} in
+  let inner := TStruct [("Port", "port", "", TPrim (KInt 64)); ("Name", "", "", TPrim KString)] in
+  let t := [("Srv", "srv", "", inner); ("Retries", "", "", TPrim (KInt 64)); ("skip", "", "", TPrim (KInt 64))] in
+  let old := [GStructV [GP (CI 1); GP (CS "n")]; GP (CI 3); GP (CI 7)] in
+  let cfg := VSub [("srv", ("srv", VSub [("port", ("port", VUint 8080))] None))] None in
+  reify_struct 8 o (TStruct t) (GStructV old) cfg
+  = Ok (GStructV [GStructV [GP (CI 8080); GP (CS "n")]; GP (CI 3); GP (CI 7)])
+  /\ frame_ok o (TStruct t) cfg (GStructV old) (GStructV [GStructV [GP (CI 8080); GP (CS "n")]; GP (CI 3); GP (CI 7)]) = true
+  /\ frame_ok o (TStruct t) cfg (GStructV old) (GStructV [GStructV [GP (CI 8080); GP (CS "changed")]; GP (CI 3); GP (CI 7)]) = false
+  /\ frame_ok o (TStruct t) cfg (GStructV old) (GStructV [GStructV [GP (CI 8080); GP (CS "n")]; GP (CI 4); GP (CI 7)]) = false.
+Proof. exact nested_frame_example. Qed.
+Print Assumptions c13_nested_frame_example.
 
 Theorem c13_frame_one_level_partial : forall f o fs vs cfg g,
   reify_struct (S f) o (TStruct fs) (GStructV vs) cfg = Ok g ->
